@@ -52,4 +52,51 @@ theorem C09_rescale_identity (cs : List Int) (total : Int) (hcs : ∀ c ∈ cs, 
     rw [if_neg (by norm_num)]
     rw [trunc_of_nonneg hc, Int.floor_intCast, ih (fun x hx => hcs x (by simp [hx]))]
 
+theorem mem_allRows_branch {d : NodeData α} {s : List (Option (Node α))} {ch : List (Nat × Node α)} {r : Nat}
+    (h : r ∈ (Node.branch d s ch).allRows) : ∃ p ∈ ch, r ∈ p.2.allRows := by
+  rw [Node.allRows_branch, List.mem_flatten] at h
+  obtain ⟨l, hl, hr⟩ := h
+  obtain ⟨p, hp, rfl⟩ := List.mem_map.mp hl
+  exact ⟨p, hp, hr⟩
+
+/-- T09.a (completeness half)  in a tree satisfying the invariant, two rows with the same values in the tree's columns sit
+in the same leaf: a leaf holds *all* rows of each value combination it holds. -/
+theorem C09_equal_rows_same_leaf (E : Env α) (c : FCtx α) (root : List (Ival α)) :
+    ∀ (t : Node α), TInv E c root t → ∀ r r', r ∈ t.allRows → r' ∈ t.allRows →
+      c.vals t.data.comb r = c.vals t.data.comb r' →
+      ∃ d s rows, Node.Sub (.leaf d s rows) t ∧ r ∈ rows ∧ r' ∈ rows := by
+  intro t hT
+  unfold TInv at hT
+  generalize hex : ([] : List Nat) = ex at hT
+  induction hT with
+  | leaf extra d subs rows hN =>
+    intro r r' hr hr' _
+    rw [Node.allRows_leaf] at hr hr'
+    exact ⟨d, subs, rows, Node.Sub.refl _, hr, hr'⟩
+  | branch extra d subs ch hN hB hC ih =>
+    intro r r' hr hr' hv
+    obtain ⟨p, hp, hrp⟩ := mem_allRows_branch hr
+    obtain ⟨q, hq, hrq⟩ := mem_allRows_branch hr'
+    have h1 := hB.route p hp r hrp
+    have h2 := hB.route q hq r' hrq
+    simp only [Node.data] at hv
+    rw [hv] at h1
+    have hkey : p.1 = q.1 := h1.symm.trans h2
+    -- unique keys: the same child
+    have hpq : p = q := by
+      have hnd := hB.keys
+      obtain ⟨i, hi, rfl⟩ := List.mem_iff_getElem.mp hp
+      obtain ⟨j, hj, rfl⟩ := List.mem_iff_getElem.mp hq
+      have hij : i = j := by
+        have := List.nodup_iff_injective_getElem.mp hnd
+        have e : (ch.map (·.1))[i]'(by simpa using hi) = (ch.map (·.1))[j]'(by simpa using hj) := by simpa using hkey
+        have := @this ⟨i, by simpa using hi⟩ ⟨j, by simpa using hj⟩ e
+        exact Fin.mk.inj_iff.mp this
+      subst hij; rfl
+    subst hpq
+    have hcomb : p.2.data.comb = d.comb := (hB.child p hp).1
+    obtain ⟨d', s', rows', hsub, m1, m2⟩ := ih p hp rfl r r' hrp hrq (by rw [hcomb]; exact hv)
+    exact ⟨d', s', rows', Node.Sub.child _ d subs ch p hp hsub, m1, m2⟩
+
+
 end
